@@ -6,12 +6,11 @@ import json
 import os
 import zipfile
 
-from sfv.framework import Ctx, Property
+from sfv.framework import Ctx, Inconclusive, Property
 from sfv.rt import cwldiff as C
 from sfv.rt import cwlgen_tool as GT
 from sfv.rt import cwlgen_wf as G
 from sfv.rt.hexs import hx
-from sfv.rt.par import pmap
 
 
 def _refs(o, acc):
@@ -176,6 +175,89 @@ def directory_doc():
             "steps": {"mk": {"run": mk, "in": {"tag": "tag"}, "out": ["o"]}, "ls": {"run": ls, "in": {"d": "d"}, "out": ["o"]}}}
 
 
+def check_additions(path: str, extra_file: str):
+    """`--add-file src=F` and `--add-property ./.license=…`: F is a described member with its sha1, the root dataset got the property"""
+    probs = []
+    z = zipfile.ZipFile(path)
+    g = json.loads(z.read("ro-crate-metadata.json"))["@graph"]
+    byid = {e["@id"]: e for e in g}
+    sha = C.sha1_file(extra_file)
+    ents = [e for e in g if "File" in _types(e) and e.get("sha1") == sha]
+    if not ents:
+        probs.append(("add-file:not-described", f"--add-file {os.path.basename(extra_file)!r}: no File entity with sha1 {sha}"))
+    else:
+        e = ents[0]
+        if e["@id"] not in z.namelist() or hashlib.sha1(z.read(e["@id"])).hexdigest() != sha:
+            probs.append(("add-file:not-archived", f"--add-file: member {e['@id']} missing or with other content"))
+        if {"@id": e["@id"]} not in byid["./"].get("hasPart", []):
+            probs.append(("add-file:not-part-of-root", f"--add-file: {e['@id']} is not in the root dataset's hasPart"))
+        if e["@id"] != "notes.txt":
+            probs.append(("add-file:name", f"--add-file dst=/notes.txt: the entity is {e['@id']!r}"))
+    if byid["./"].get("license") != "CC-BY-4.0":
+        probs.append(("add-property:missing", f"--add-property ./.license: root has license={byid['./'].get('license')!r}"))
+    return probs
+
+
+def _flatten(v):
+    out = []
+    for x in v:
+        if isinstance(x, list):
+            out += _flatten(x)
+        else:
+            out.append(x)
+    return out
+
+
+def _leaf(v, job_dir):
+    """protocol token of a list element / single value; None when the value is outside the model (records, directories)"""
+    if v is None:
+        return "n"
+    if isinstance(v, dict):
+        if v.get("class") == "File" and not v.get("secondaryFiles"):
+            sha = v.get("checksum", "sha1$")[5:] or (C.sha1_file(v["path"]) if v.get("path") and os.path.exists(v["path"]) else None)
+            return None if sha is None else f"f{hx(sha)}:{hx(v.get('path', 'p'))}"
+        return None
+    if isinstance(v, bool) or isinstance(v, (int, float, str)):
+        return "s" + hx(str(v))
+    return None
+
+
+def io_tokens(job: dict, outputs: dict, job_dir: str):
+    """[(name, token)] for every input and output value inside the model of get_property_value"""
+    toks = []
+    for name, v in list(job.items()) + list((outputs or {}).items()):
+        if isinstance(v, list):
+            items = [_leaf(x, job_dir) for x in _flatten(v)]
+            if any(i is None for i in items):
+                continue
+            toks.append((name, "l" + ";".join(items)))
+        else:
+            t = _leaf(v, job_dir)
+            if t is not None:
+                toks.append((name, t))
+    return toks
+
+
+def archive_io(path: str):
+    """what the main CreateAction of a real archive links to: sorted [(name, values, scalar-shaped?)] and File checksums"""
+    g = json.loads(zipfile.ZipFile(path).read("ro-crate-metadata.json"))["@graph"]
+    byid = {e["@id"]: e for e in g}
+    main_id = byid["./"].get("mainEntity", {}).get("@id")
+    pvs, files = [], []
+    for a in g:
+        if "CreateAction" in _types(a) and a.get("instrument", {}).get("@id") == main_id:
+            for r in a.get("object", []) + a.get("result", []):
+                e = byid.get(r["@id"], {})
+                if "PropertyValue" in _types(e) and not (isinstance(e.get("value"), list) and any(isinstance(x, dict) and "@id" in x and
+                                                                                                  byid.get(x["@id"], {}).get("@type") == "PropertyValue" for x in e["value"])):
+                    v = e.get("value")
+                    vals = [v] if not isinstance(v, list) else v
+                    pvs.append((e.get("name"), tuple("@" + x["@id"] if isinstance(x, dict) else x for x in vals), not isinstance(v, list)))
+                elif "File" in _types(e):
+                    files.append(e.get("sha1"))
+    return sorted(pvs), sorted(set(files))
+
+
 class C34(Property):
     pid = "C34"
     title = "Exported run provenance is self-contained and consistent"
@@ -184,7 +266,7 @@ class C34(Property):
     drivers = ["Drivers/C34.lean"]
     translators = []
     quick_budget_s = 1500
-    thorough_budget_s = 7200
+    thorough_budget_s = 2400
     min_nontrivial = 6
     rule = ("the workflow generator of C29 (1..6 steps, ExpressionTools, container-free CommandLineTools, scatter, linkMerge, pickValue, when, "
             "subworkflows, int/string/array/record/File values); each document is run with StreamFlow's cwl-runner entry point on a private "
@@ -205,7 +287,8 @@ class C34(Property):
     ]
     technique = "Lean 4 invariants of the provenance manager's bookkeeping over every update history + monitor of real exported archives"
     level_text = ("grade C (kernel): ids_unique / entity_under_own_id / hasPart_closed / file_entities_have_archive_entry are proved for every "
-                  "history of the manager's three kinds of updates; that real exports of generated workflow runs are valid, self-contained and "
+                  "history of the manager's three kinds of updates, io_values_represented for every history of run values handed to the manager "
+                  "(scalars, File tokens, lists; fresh uuids assumed); that real exports of generated workflow runs are valid, self-contained and "
                   "represent every input and output is checked on real archives (monitor), not proved")
     level_note = ("Lean kernel, axioms within {propext, Classical.choice, Quot.sound}; the bookkeeping model is hand-written; the Lean predicates are "
                   "evaluated on the graph of every exported archive")
@@ -235,8 +318,14 @@ class C34(Property):
         json.dump(ddoc, open(os.path.join(dd, "wf.cwl"), "w"), indent=1)
         djob = {"d": {"class": "Directory", "path": os.path.join(dd, "indir")}, "tag": "t"}
         json.dump(djob, open(os.path.join(dd, "job.json"), "w"))
-        descs["dir"] = {"doc": ddoc, "job": djob, "features": ["Directory-input", "Directory-output"], "steps": 2}
-        cases.insert(0, {"id": "dir", "dir": dd, "doc": "wf.cwl", "job": "job.json", "name": "wf", "timeout": 900, "prov": True, "only_sf": True})
+        descs["dir"] = {"doc": ddoc, "job": djob, "features": ["Directory-input", "Directory-output", "add-file", "add-property"], "steps": 2}
+        # `streamflow prov --add-file src=…  --add-property ./.license=…` (RunCrateProvenanceManager.add_file / add_property)
+        extra = os.path.join(dd, "NOTES extra.txt")
+        open(extra, "w").write("an additional file\n")
+        descs["dir"]["extra_file"] = extra
+        cases.insert(0, {"id": "dir", "dir": dd, "doc": "wf.cwl", "job": "job.json", "name": "wf", "timeout": 900, "prov": True, "only_sf": True,
+                         "prov_args": ["--add-file", f"src={extra},dst=/notes.txt", "--add-property", "\\./.license=CC-BY-4.0"],
+                         "prov_args_alt": ["--add-file", f"src={extra}"]})
         ctx.corpus_replayed += 1
         # a run whose main entity is a bare CommandLineTool (DESIGN §6 #22)
         td = os.path.join(ctx.scratch, "tool")
@@ -245,17 +334,21 @@ class C34(Property):
         cases.append({"id": "tool", "dir": td, "doc": "tool.cwl", "job": "job.json", "name": "wf", "timeout": 900, "prov": True, "only_sf": True})
         ctx.corpus_replayed += 2
         lines, meta = [], []
+        io_lines, io_meta = [], []
         completed = 0
+        budget = self.quick_budget_s if ctx.tier == "quick" else self.thorough_budget_s
+        ctx.extra["documents_planned"] = len(cases)
         for start in range(0, len(cases), 12):
-            if start > 0 and ctx.time_left() < 200:
-                ctx.notes.append(f"budget: {len(cases) - start} documents not run")
+            if start > 0 and ctx.time_left() < 0.3 * budget:
+                ctx.notes.append(f"adaptive plan: {len(cases) - start} of {len(cases)} documents not run (70% of the budget used)")
                 break
-            for case, status, res in pmap(C.run_case, cases[start:start + 12], timeout=2400, workers=8):
+            try:
+                confirmed = list(C.run_cases_confirmed(cases[start:start + 12], time_left=ctx.time_left))
+            except C.Unconfirmed as e:
+                raise Inconclusive(str(e)) from e
+            for case, res in confirmed:
                 desc = descs[case["id"]]
                 rep = {"op": "doc", "doc": desc["doc"], "job": desc["job"], "file": case["doc"]}
-                if status != "ok":
-                    ctx.fail("hang:harness", f"{case['id']}: {status} {str(res)[:200]}", rep)
-                    continue
                 sf = res["sf"]
                 if C.outcome(sf) != "success":
                     ctx.case({"doc": case["id"], "run": C.outcome(sf)}, None, "run-did-not-complete")
@@ -271,6 +364,13 @@ class C34(Property):
                     ctx.fail(key, f"streamflow prov failed (rc {pv['rc']}): {tail[:300]}", rep)
                     continue
                 probs, ents, names = check_archive(pv["archive"], desc["job"], sf["out"], case["dir"])
+                if desc.get("extra_file"):
+                    probs += check_additions(pv["archive"], desc["extra_file"])
+                    alt = res.get("prov_alt")
+                    if alt is not None and alt["rc"] != 0:
+                        tail = alt["stderr"].strip().splitlines()[-1] if alt["stderr"].strip() else ""
+                        probs.append(("export:add-file-default-dst-KeyError" if "KeyError: '/'" in alt["stderr"] else "export:add-file-failed",
+                                      f"`streamflow prov --add-file src=F` (default dst) fails: {tail[:200]}"))
                 for key, detail in probs:
                     ctx.fail(key, f"document {case['id']}: {detail}", rep)
                 toks = ["crate"]
@@ -278,6 +378,9 @@ class C34(Property):
                     toks += [hx(i), "f1" if is_file else "f0", ",".join(hx(r) for r in refs) or "_"]
                 toks += ["names"] + [hx(nm) for nm in names]
                 lines.append(" ".join(toks))
+                iot = io_tokens(desc["job"], sf["out"], case["dir"])
+                io_lines.append("io" + "".join(f" {hx('#u' + str(k))} {hx(nm)} {tk}" for k, (nm, tk) in enumerate(iot)))
+                io_meta.append((case["id"], {nm for nm, _ in iot}, archive_io(pv["archive"])))
                 ids = [e[0] for e in ents]
                 meta.append((case["id"], len(set(ids)) == len(ids),
                              all(r in ids or _external(r) for _, _, rs in ents for r in rs),
@@ -286,7 +389,23 @@ class C34(Property):
         ctx.extra["runs_completed"] = completed
         ctx.extra["archives_checked"] = len(lines)
         if lines:
-            for (cid, u, c, f, nids, nfiles), out in zip(meta, ctx.lean("Drivers/C34.lean", lines)):
+            outs = ctx.lean("Drivers/C34.lean", lines + io_lines)
+            # the values of the run through the Lean manager model (`registerAll`) against what the real archive links from the run action
+            for (cid, names_in_model, (pvs, files)), out in zip(io_meta, outs[len(lines):]):
+                parts = dict(p.split(":", 1) for p in out.split(" ")) if out != "bad-op" else {}
+                mpv = []
+                for item in ([] if parts.get("pv", "_") == "_" else parts["pv"].split(";")):
+                    nm, vals = item.split("=")
+                    scalar = vals.endswith("!")
+                    vals = vals.rstrip("!")
+                    mpv.append((bytes.fromhex(nm).decode(), tuple([] if vals == "_" else [bytes.fromhex(v).decode() if v != "-" else "" for v in vals.split(",")]), scalar))
+                mfiles = sorted({bytes.fromhex(v).decode() for v in parts.get("files", "_").split(",")} if parts.get("files", "_") != "_" else set())
+                real_pv = [p for p in pvs if p[0] in names_in_model]
+                ctx.count("io-model-compared")
+                if sorted(mpv) != real_pv or not set(mfiles) <= set(files):
+                    ctx.disagree("manager value model (registerAll) vs the real archive",
+                                 f"document {cid}: archive links {real_pv} files {files}; Lean model {sorted(mpv)} files {mfiles}", {"op": "crate", "doc": cid})
+            for (cid, u, c, f, nids, nfiles), out in zip(meta, outs[:len(lines)]):
                 parts = dict(p.split(":") for p in out.split(" ")) if out != "bad-op" else {}
                 exp = {"unique": "1" if u else "0", "closed": "1" if c else "0", "files": "1" if f else "0"}
                 for k, v in exp.items():
@@ -317,6 +436,8 @@ class C34(Property):
         json.dump(r["job"], open(os.path.join(dd, "job.json"), "w"))
         res = C.run_case({"dir": dd, "doc": r.get("file", "wf.cwl"), "job": "job.json", "name": "wf", "timeout": 900, "prov": True, "only_sf": True})
         print("run:", C.outcome(res["sf"]), " export:", res.get("prov"))
+        if C._timed_out(res):
+            raise Inconclusive("replay: the run or the export did not finish within 900 s")
         pv = res.get("prov")
         if pv and pv["archive"]:
             probs, _, names = check_archive(pv["archive"], r["job"], res["sf"]["out"], dd)
